@@ -18,6 +18,8 @@ type c13Case struct {
 	phases  [][]string // hook names per phase, "stmt" marks the statement
 	prefix  string     // hook name prefix of the records ("" or "Boss.")
 	valAt   int        // index of the bound Val argument in the main statement (-1: none)
+	table   string     // table of the records' statement when they are not the operation's own model
+	batched bool       // several main statements (CreateInBatches): hooks are not ordered around the first one
 }
 
 var (
@@ -82,15 +84,30 @@ func c13Cases() []c13Case {
 			run: func(db *gorm.DB) *gorm.DB { var r []*HRec; return db.Find(&r) }},
 		c13Case{name: "first", records: names[:1], phases: findPhases, valAt: -1,
 			run: func(db *gorm.DB) *gorm.DB { var r HRec; return db.First(&r) }},
-		c13Case{name: "create-shared-belongs-to", records: []string{"boss"}, phases: createPhases, prefix: "Boss.", valAt: -1,
+		c13Case{name: "create-shared-belongs-to", records: []string{"boss"}, phases: createPhases, prefix: "Boss.", valAt: -1, table: "hbosss",
 			run: func(db *gorm.DB) *gorm.DB {
 				b := &HBoss{ID: 9, Name: "boss"}
 				return db.Create(&[]*HWorker{{Name: "w1", Boss: b}, {Name: "w2", Boss: b}, {Name: "w3", Boss: b}})
 			}},
-		c13Case{name: "create-shared-belongs-to-values", records: []string{"boss"}, phases: createPhases, prefix: "Boss.", valAt: -1,
+		c13Case{name: "create-shared-belongs-to-values", records: []string{"boss"}, phases: createPhases, prefix: "Boss.", valAt: -1, table: "hbosss",
 			run: func(db *gorm.DB) *gorm.DB {
 				b := &HBoss{ID: 9, Name: "boss"}
 				return db.Create(&[]HWorker{{Name: "w1", Boss: b}, {Name: "w2", Boss: b}})
+			}},
+		// children holding a back-reference to the parent being created
+		c13Case{name: "create-back-reference", records: []string{"i1", "i2"}, phases: createPhases, prefix: "Item.", valAt: -1, table: "hitems",
+			run: func(db *gorm.DB) *gorm.DB {
+				o := &HOrder{Name: "o"}
+				o.Items = []*HItem{{Name: "i1", Order: o}, {Name: "i2", Order: o}}
+				return db.Create(o)
+			}},
+		// a create split into batches is one operation: one transaction, hooks once per record
+		c13Case{name: "create-in-batches", records: names[:3], phases: createPhases, valAt: -1, batched: true,
+			run: func(db *gorm.DB) *gorm.DB { r := c13Recs(3); return db.CreateInBatches(&r, 2) }},
+		c13Case{name: "create-batch-size-session", records: names[:3], phases: createPhases, valAt: -1, batched: true,
+			run: func(db *gorm.DB) *gorm.DB {
+				r := c13Recs(3)
+				return db.Session(&gorm.Session{CreateBatchSize: 1}).Create(&r)
 			}},
 		c13Case{name: "skiphooks-create", records: nil, phases: nil, valAt: -1,
 			run: func(db *gorm.DB) *gorm.DB {
@@ -172,7 +189,7 @@ func H_C13_Hooks(shape int) {
 	// position of the main statement in the store log
 	stmtPos := -1
 	for i, e := range s.Log {
-		if (e.Kind == "EXEC" || e.Kind == "QUERY") && !hasPrefix(e.Text, "SAVEPOINT") && (c.prefix == "" || indexStr(e.Text, "hbosss") >= 0) {
+		if (e.Kind == "EXEC" || e.Kind == "QUERY") && !hasPrefix(e.Text, "SAVEPOINT") && (c.table == "" || indexStr(e.Text, c.table) >= 0) {
 			stmtPos = i
 			break
 		}
@@ -219,10 +236,13 @@ func H_C13_Hooks(shape int) {
 		}
 		if fp >= 0 {
 			for _, i := range mine {
+				if c.batched && i < hooks.failAt-1 {
+					continue // earlier batches ran all their phases before the failure
+				}
 				h, _ := name(i)
 				verifrt.Assert(phaseOf(c.phases, h) <= fp, "C13.phase-after-failure")
 			}
-			if fp == 0 {
+			if fp == 0 && !c.batched {
 				verifrt.Assert(stmtPos < 0, "C13.statement-after-failed-before-hook")
 			}
 		}
@@ -276,7 +296,7 @@ func H_C13_Hooks(shape int) {
 			}
 		}
 	}
-	if len(c.records) > 0 {
+	if len(c.records) > 0 && !c.batched {
 		verifrt.Assert(stmtPos >= 0, "C13.no-statement")
 		sp := phaseOf(c.phases, "stmt")
 		for _, i := range mine {
